@@ -3,7 +3,11 @@ package main
 func init() {
 	props["C16"] = &Prop{
 		ID: "C16", PkgDir: "interp", PkgPath: interpPath, PkgName: "interp",
-		Harness:    []string{"interp_common.go", "C16.go"},
+		Harness:    []string{"interp_common.go", "C16.go", "C16_import.go"},
+		Redirects: map[string]string{
+			"(*" + interpPath + ".Interpreter).parse": "vmImpParse", "(*" + interpPath + ".Interpreter).ast": "vmImpAst", "(*" + interpPath + ".Interpreter).gta": "vmImpGta",
+			"(*" + interpPath + ".Interpreter).gtaRetry": "vmImpGtaRetry", "(*" + interpPath + ".Interpreter).cfg": "vmImpCfg",
+		},
 		Instrument: runidInstr,
 		InlinePkgs: []string{"io/fs"},
 		Solver:     "cvc5",
@@ -23,10 +27,11 @@ func init() {
 					r = append(r, Oblig{Harness: "vh_C16_relative", Globals: map[string]int{"vhRelUp": up, "vhRelFrom": from}, Unroll: 12})
 				}
 			}
+			r = append(r, Oblig{Harness: "vh_import_body", Unroll: 12}, Oblig{Harness: "vh_import_cycle", Unroll: 12})
 			return r
 		},
-		Bounds:      []string{"importer directory: 0..2 (thorough 3) words below GOPATH/src, each any word of 1..6 letters (so also 'vendor')", "import path: 1..2 words", "directory tree: an uninterpreted predicate isdir(path), prefix-closed on the paths in play", "GOPATH fixed to /g, separator '/'", "relative imports ./x and ../x from the main file or from a package one or two levels below it; main file in <d1>/<d2>/main.go"},
+		Bounds:      []string{"importer directory: 0..2 (thorough 3) words below GOPATH/src, each any word of 1..6 letters (so also 'vendor')", "import path: 1..2 words", "directory tree: an uninterpreted predicate isdir(path), prefix-closed on the paths in play", "GOPATH fixed to /g, separator '/'", "importSrc body on a two-file package: every combination of stage failures; second import; import in progress", "relative imports ./x and ../x from the main file or from a package one or two levels below it; main file in <d1>/<d2>/main.go"},
 		Assumptions: []string{"the importer's directory and all its ancestors exist", "a vendored package directory implies its vendor directory", "names contain neither '/' nor '.'"},
-		Outside:     []string{"rootFromSourceLocation (os.Getwd)", "import-once and cycle detection in importSrc", "Windows separators"},
+		Outside:     []string{"rootFromSourceLocation (os.Getwd)", "Windows separators"},
 	}
 }
